@@ -104,7 +104,7 @@ def work_config(args):
                 if f.h.hbh == 0:
                     out.append(Violation("route-request:zero-hop-by-hop-identifier", desc, case))
             any_ok = (conf | dflt) & ready_gt
-            must_send = conf & ready_gt
+            must_send = (conf & ready_gt) or (set() if conf else dflt & ready_gt)
             if not any_ok:
                 if res[2] != "NotRoutable" or targets:
                     out.append(Violation("route-request:no-eligible-ready-peer-but-not-NotRoutable", desc, case))
@@ -162,6 +162,19 @@ def execute_b(variant, prefix):
         for ev in (("accept",), ("m", 0, "cer_p0"), ("accept",), ("m", 1, "cer_p1")):
             sc.apply(ev)
         n0 = [len(s.out) for s in sc.socks]
+        if "auto" in script:
+            # a peer that answers the moment a request reaches its socket (the answer may overtake the caller's bookkeeping)
+            def reactive(fs, chunk, buf={}):
+                b = buf.get(fs.sid, b"") + chunk
+                raws, rest = rc.split_frames(b)
+                buf[fs.sid] = rest
+                for raw in raws:
+                    f = rc.Frame(raw)
+                    if f.h.is_request and f.h.code == 271:
+                        fs.rbuf += env.aca(host="peer1.example.org", app=f.h.app, hbh=f.h.hbh, e2e=f.h.e2e)
+                        nw.world.obs("env_deliver", fs.sid, b"")
+            for s_ in sc.socks:
+                s_.fs.on_sent = functools.partial(reactive, buf={})
         nw.world.points_on = True
         ch.window = True
         for a in callers:
@@ -181,7 +194,7 @@ def execute_b(variant, prefix):
         if script.startswith("rev"):
             order.reverse()
         deliveries = []
-        for k in order:
+        for k in ([] if "auto" in script else order):
             si, f = reqs[k]
             ans = env.aca(host=sc.socks[si].host, app=f.h.app, hbh=f.h.hbh, e2e=f.h.e2e) if f.h.code == 271 else \
                 rc.enc_msg(f.h.code, 0x40, f.h.app, f.h.hbh, f.h.e2e, [rc.utf8(263, "s"), rc.u32(268, 2001), rc.octets(264, sc.socks[si].host.encode(), 0),
@@ -270,9 +283,9 @@ def check_b(obs):
 
 def variants_b(tier):
     out = []
-    scripts = ["fwd", "rev", "fwd-dup", "rev-late", "fwd-unknown", "rev-dup-unknown", "fwd-cross"]
+    scripts = ["fwd", "rev", "fwd-dup", "rev-late", "fwd-unknown", "rev-dup-unknown", "fwd-cross", "auto"]
     if tier != "thorough":
-        scripts = ["rev", "fwd-dup", "rev-late", "rev-dup-unknown", "fwd-cross"]
+        scripts = ["rev", "fwd-dup", "rev-late", "rev-dup-unknown", "fwd-cross", "auto"]
     for script in scripts:
         out.append((((0, 0), script, False), 1 if tier != "thorough" else 2))
     out.append((((0, 1), "rev-dup", False), 1 if tier != "thorough" else 2))         # two applications, one peer in common
